@@ -2,6 +2,7 @@ package main
 
 import (
 	"fmt"
+	"math"
 	"sort"
 	"strings"
 
@@ -683,6 +684,19 @@ func (c wcase) monitor(mon *lib.Monitor, out wout) {
 				want = "" // the message the mask names is absent from the written message: cleared
 			}
 		}
+		if a != want && kind == "scalar" && negZeroTok(want) && !c.displaced(before, written, p) {
+			// the written scalar is negative zero (present by protoreflect's Has, so "named and
+			// present: takes the written value")
+			switch {
+			case a == "":
+				continue // stored as +0: the same number, the sign of zero is not kept
+			case !c.M.Nil && a == b:
+				// recorded finding: proto.Merge copies a proto3 float only when != 0, pruneEmpty keeps a
+				// field Has reports: the stored value stays, neither written nor cleared
+				mon.Violate("C05/masked-write/inside/negative-zero-scalar-keeps-stored-value", "path "+k+" is inside update∩writable and the written message holds negative zero there (present by Has), but the stored value is kept: neither the written value nor cleared ["+site+"]", c.in(), want+" (or absent = +0)", orAbsent(a))
+				continue
+			}
+		}
 		if a != want && !c.displaced(before, written, p) {
 			class := "/inside/" + kind
 			if overlap {
@@ -870,7 +884,13 @@ func runCases(cases []wcase, tie *lib.Tie, mon *lib.Monitor, drv *lib.Driver) {
 		i += n
 		out := c.runCode()
 		code := out.fullText()
-		tie.Record(c.key(), c.nontrivial(), c.in(), model, code)
+		if c.writesNegZero() {
+			// the model's scalars are opaque tokens copied whenever present: it has no negative zero
+			// (which proto.Merge does not copy); such writes are monitored only
+			tie.Count("not-compared:written-negative-zero")
+		} else {
+			tie.Record(c.key(), c.nontrivial(), c.in(), model, code)
+		}
 		if c.Inner != nil {
 			tie.Count("nested-write")
 		}
@@ -951,7 +971,95 @@ func runWrites(f lib.Flags, res *lib.Result, drv *lib.Driver) {
 		}
 		runCases(cases, tie, mon, drv)
 	}
+	// special float payloads in the written message (negative zero, NaN, +-Inf) on a generator of its
+	// own, after the main family (whose cases stay what they were for every seed)
+	g2 := &mt.Gen{R: lib.NewRand(f.Seed + 7919)}
+	n2 := f.N(900, 15000)
+	var sp []wcase
+	for i := 0; i < n2; i++ {
+		c := genCase(g2, sites[i%3])
+		for t := 0; t < 3 && c.Root == "TestAllTypes" && c.Inner == nil; t++ {
+			c = genCase(g2, sites[i%3]) // mostly the proto3 trait messages (implicit presence)
+		}
+		if c.Inner != nil {
+			continue
+		}
+		sp = append(sp, specialFloatCase(g2, c))
+	}
+	runCases(sp, tie, mon, drv)
 	if f.Thorough() {
 		runExhaustive(res, drv, mon)
 	}
+}
+
+func negZeroTok(t string) bool { return t == "f80000000" || t == "d8000000000000000" }
+
+var specialFloats = []float64{math.Copysign(0, -1), math.NaN(), math.Inf(1), math.Inf(-1)}
+
+type floatSlot struct {
+	m    protoreflect.Message
+	fd   protoreflect.FieldDescriptor
+	path string
+}
+
+// floatSlots: the singular float / double fields of m and of its singular sub-messages two levels
+// down (populated or not: the written message gets the field).
+func floatSlots(m protoreflect.Message, prefix string, depth int, out *[]floatSlot) {
+	fs := m.Descriptor().Fields()
+	for i := 0; i < fs.Len(); i++ {
+		fd := fs.Get(i)
+		if fd.IsList() || fd.IsMap() {
+			continue
+		}
+		switch fd.Kind() {
+		case protoreflect.FloatKind, protoreflect.DoubleKind:
+			*out = append(*out, floatSlot{m, fd, prefix + string(fd.Name())})
+		case protoreflect.MessageKind:
+			if depth > 0 && (m.Has(fd) || depth > 1) {
+				floatSlots(m.Mutable(fd).Message(), prefix+string(fd.Name())+".", depth-1, out)
+			}
+		}
+	}
+}
+
+// specialFloatCase puts one special float (negative zero half of the time) into a float field of the
+// case's written message and, two times out of three, names that field in the update mask (and in
+// the writable masks, when there are any).
+func specialFloatCase(g *mt.Gen, c wcase) wcase {
+	r := rootByName(c.Root)
+	src := r.New()
+	if m, err := mt.DecodeMsg(c.Src, src); err != nil || m == nil {
+		return c
+	}
+	var slots []floatSlot
+	floatSlots(src.ProtoReflect(), "", 2, &slots)
+	if len(slots) == 0 {
+		return c
+	}
+	sl := slots[g.R.Intn(len(slots))]
+	v := specialFloats[0]
+	if g.R.Intn(2) == 0 {
+		v = specialFloats[g.R.Intn(len(specialFloats))]
+	}
+	if sl.fd.Kind() == protoreflect.FloatKind {
+		sl.m.Set(sl.fd, protoreflect.ValueOfFloat32(float32(v)))
+	} else {
+		sl.m.Set(sl.fd, protoreflect.ValueOfFloat64(v))
+	}
+	c.Src, c.SrcText = mt.EncodeMsg(src), mt.CanonMsg(src)
+	if g.R.Intn(3) > 0 {
+		if c.M.Nil || g.R.Intn(2) == 0 {
+			c.M = mt.Mask{Paths: []string{sl.path}}
+		} else {
+			c.M = mt.Mask{Paths: append(append([]string{}, c.M.Paths...), sl.path)}
+		}
+		if !c.W.Nil {
+			c.W = mt.Mask{Paths: append(append([]string{}, c.W.Paths...), sl.path)}
+		}
+	}
+	return c
+}
+
+func (c wcase) writesNegZero() bool {
+	return strings.Contains(c.SrcText, "=f80000000") || strings.Contains(c.SrcText, "=d8000000000000000")
 }
